@@ -6,6 +6,7 @@ import (
 	"fmt"
 	"strings"
 	"sync"
+	"time"
 
 	coreda "github.com/evstack/ev-node/core/da"
 
@@ -37,6 +38,47 @@ type spy struct {
 	mu     sync.Mutex
 	recs   []rec
 	cursor func() uint64
+	// hangKind "listing" / "chunk0": the first listing / first chunk fetch for hangAt is left unanswered until
+	// the caller's context ends or hangCap passed; it then fails and everything after it is answered normally
+	hangKind    string
+	hangAt      uint64
+	hangCap     time.Duration
+	hangStarted bool
+	hangEndedBy string // "caller" | "da-client-timeout"
+	hangTook    time.Duration
+}
+
+// hang leaves the call unanswered if it is the one to be left unanswered; it returns the error the call ends with.
+func (s *spy) hang(ctx context.Context, kind string, h uint64) error {
+	s.mu.Lock()
+	if s.hangKind != kind || s.hangAt != h || s.hangStarted {
+		s.mu.Unlock()
+		return nil
+	}
+	s.hangStarted = true
+	s.mu.Unlock()
+	t0 := time.Now()
+	var err error
+	by := "caller"
+	tm := time.NewTimer(s.hangCap)
+	defer tm.Stop()
+	select {
+	case <-ctx.Done():
+		err = ctx.Err()
+	case <-tm.C:
+		by = "da-client-timeout"
+		err = world.RetrieveErr(1, "no answer")
+	}
+	s.mu.Lock()
+	s.hangEndedBy, s.hangTook = by, time.Since(t0)
+	s.mu.Unlock()
+	return err
+}
+
+func (s *spy) hangInfo() (bool, string, time.Duration) {
+	s.mu.Lock()
+	defer s.mu.Unlock()
+	return s.hangStarted, s.hangEndedBy, s.hangTook
 }
 
 func (s *spy) sample() (uint64, bool) {
@@ -75,6 +117,10 @@ func (s *spy) log() []rec {
 
 func (s *spy) GetIDs(ctx context.Context, height uint64, ns []byte) (*coreda.GetIDsResult, error) {
 	cur, ok := s.sample()
+	if herr := s.hang(ctx, "listing", height); herr != nil {
+		s.add(rec{Kind: "getids", H: height, Cursor: cur, HasCur: ok, Outcome: "listerr"})
+		return nil, herr
+	}
 	res, err := s.DADouble.GetIDs(ctx, height, ns)
 	r := rec{Kind: "getids", H: height, Cursor: cur, HasCur: ok}
 	switch {
@@ -100,7 +146,6 @@ func (s *spy) GetIDs(ctx context.Context, height uint64, ns []byte) (*coreda.Get
 
 func (s *spy) Get(ctx context.Context, ids []coreda.ID, ns []byte) ([]coreda.Blob, error) {
 	cur, ok := s.sample()
-	blobs, err := s.DADouble.Get(ctx, ids, ns)
 	r := rec{Kind: "get", Cursor: cur, HasCur: ok, Outcome: "ok"}
 	if len(ids) > 0 && len(ids[0]) >= 8 {
 		r.H = binary.LittleEndian.Uint64(ids[0])
@@ -108,6 +153,12 @@ func (s *spy) Get(ctx context.Context, ids []coreda.ID, ns []byte) ([]coreda.Blo
 	for _, id := range ids {
 		r.IDs = append(r.IDs, string(id))
 	}
+	if herr := s.hang(ctx, "chunk0", r.H); herr != nil {
+		r.Outcome = "chunkerr"
+		s.add(r)
+		return nil, herr
+	}
+	blobs, err := s.DADouble.Get(ctx, ids, ns)
 	if err != nil || len(blobs) != len(ids) {
 		r.Outcome = "chunkerr"
 	}
